@@ -2,11 +2,11 @@
 import os
 import sys
 sys.path.insert(0, os.path.dirname(os.path.dirname(os.path.abspath(__file__))))
-from props.common import main, Run, run_child  # noqa: E402
+from props.common import main, Run, run_child, ALL_SIDECARS  # noqa: E402
 from props.opcodes import opcode_contracts  # noqa: E402
 from props.c09 import STATE_FNS  # noqa: E402
 
-SIDE = ("severity", "externals", "pickled_api", "interp", "interp_run", "anchoring")
+SIDE = ALL_SIDECARS
 OLD = "old(interpreter.module_body._list)"
 I = "interpreter"
 
